@@ -1,5 +1,6 @@
 mod ctx;
 mod driver;
+mod heapcheck;
 mod props;
 mod session;
 mod sut;
